@@ -652,6 +652,7 @@ func geojsonHandler(raw json.RawMessage) map[string]any {
 	}
 	must(json.Unmarshal(raw, &c))
 	out := map[string]any{"pan": ""}
+	defer func() { out["overwritten"] = drainOverwritten() }()
 	none := map[string]any{"t": "none", "l": "No", "body": []any{}}
 	notEnc := []any{"x", "not encoded"}
 	switch c.Fam {
@@ -661,6 +662,7 @@ func geojsonHandler(raw json.RawMessage) map[string]any {
 		out["json2"], out["encerr2"], out["back2"], out["backerr2"], out["wf2"] = notEnc, "", none, "", []any{}
 		ev, msg := call(func() {
 			b, err := geojson.Marshal(g)
+			retain("geojson.Marshal", b)
 			out["encerr"] = errStr(err)
 			if err != nil {
 				return
@@ -681,6 +683,9 @@ func geojsonHandler(raw json.RawMessage) map[string]any {
 			ge, err := geojson.Encode(g)
 			var b []byte
 			if err == nil {
+				if ge != nil && ge.Coordinates != nil {
+					retain("geojson.Encode.Coordinates", []byte(*ge.Coordinates))
+				}
 				b, err = json.Marshal(ge)
 			}
 			out["encerr2"] = errStr(err)
@@ -722,6 +727,7 @@ func geojsonHandler(raw json.RawMessage) map[string]any {
 		ev, msg = call(func() {
 			f := buildFeat(c.F)
 			b, err := f.MarshalJSON()
+			retain("Feature.MarshalJSON", b)
 			out["encerr2"] = errStr(err)
 			if err != nil {
 				return
@@ -766,6 +772,7 @@ func geojsonHandler(raw json.RawMessage) map[string]any {
 		}
 		ev, msg = call(func() {
 			b, err := build().MarshalJSON()
+			retain("FeatureCollection.MarshalJSON", b)
 			out["encerr2"] = errStr(err)
 			if err != nil {
 				return
